@@ -8,14 +8,14 @@ Open Scope string_scope.
 
 (* ---- retainPath, before the fix: written under root + particle lock, read with no lock ---- *)
 Definition rp_write : asite :=
-  mk_asite ["particle"; "retainPath"] "TopicsIndex.RetainMessage" true false
+  mk_asite ["particle"; "retainPath"] "TopicsIndex.RetainMessage" true false false
     [("particle.Mutex#root", W, false); ("particle.Mutex", W, true)] [RA; RE; RH; RI].
 Definition rp_read_prefix : asite :=
-  mk_asite ["particle"; "retainPath"] "TopicsIndex.scanMessages" false false [] [RA; RH].
+  mk_asite ["particle"; "retainPath"] "TopicsIndex.scanMessages" false false false [] [RA; RH].
 Definition rp_read_fixed : asite :=
-  mk_asite ["particle"; "retainPath"] "particle.retained" false false [("particle.Mutex", W, true)] [RA; RH].
+  mk_asite ["particle"; "retainPath"] "particle.retained" false false false [("particle.Mutex", W, true)] [RA; RH].
 Definition rp_read_trim : asite :=
-  mk_asite ["particle"; "retainPath"] "TopicsIndex.trim" false false [("particle.Mutex#root", W, false)] [RA; RE; RH; RI].
+  mk_asite ["particle"; "retainPath"] "TopicsIndex.trim" false false false [("particle.Mutex#root", W, false)] [RA; RE; RH; RI].
 
 Lemma retainPath_prefix_rejected :
   sites_respect decl [rp_write; rp_read_prefix; rp_read_trim] = false /\
@@ -35,9 +35,9 @@ Proof. vm_compute. reflexivity. Qed.
 
 (* ---- KF_C33_will: the handler clears / reads the will, the event loop clears it as well ---- *)
 Definition will_handler : asite :=
-  mk_asite ["Client"; "Properties"; "Will"] "Server.attachClient" true false [] [RH].
+  mk_asite ["Client"; "Properties"; "Will"] "Server.attachClient" true false false [] [RH].
 Definition will_eventloop : asite :=
-  mk_asite ["Client"; "Properties"; "Will"] "Server.sendDelayedLWT" true false [] [RE].
+  mk_asite ["Client"; "Properties"; "Will"] "Server.sendDelayedLWT" true false false [] [RE].
 
 Lemma will_refuted :
   sites_respect decl [will_handler; will_eventloop] = false /\
@@ -56,3 +56,21 @@ Proof.
   unfold synchronised. simpl. intros [_ H]. specialize (H RE (or_introl eq_refl)).
   simpl in H. destruct H as [H|[H|[H|[]]]]; discriminate.
 Qed.
+
+(* ---- session expiry interval: owned by the handler until Client.Stop, read by the event loop
+        only behind the StopTime() guard (seeded change: the read moved in front of the guard) ---- *)
+Definition sei_write : asite :=
+  mk_asite ["Client"; "Properties"; "Props"; "SessionExpiryInterval"] "Server.processDisconnect" true false false [] [RA; RH].
+Definition sei_read_guarded : asite :=
+  mk_asite ["Client"; "Properties"; "Props"; "SessionExpiryInterval"] "Server.clearExpiredClients" false false true [] [RE].
+Definition sei_read_unguarded : asite :=
+  mk_asite ["Client"; "Properties"; "Props"; "SessionExpiryInterval"] "Server.clearExpiredClients" false false false [] [RE].
+Definition sei_write_guarded : asite :=
+  mk_asite ["Client"; "Properties"; "Props"; "SessionExpiryInterval"] "Server.clearExpiredClients" true false true [] [RE].
+
+Lemma sei_guard_required :
+  sites_respect decl [sei_write; sei_read_guarded] = true /\
+  sites_respect decl [sei_write; sei_read_unguarded] = false /\
+  sites_respect_modulo decl [sei_write; sei_read_unguarded] = false /\
+  sites_respect decl [sei_write; sei_write_guarded] = false.
+Proof. vm_compute. repeat split. Qed.
